@@ -378,6 +378,18 @@ func (env *specEnv) evalBinary(x *SBinary) TV {
 		l := env.eval(x.L)
 		r := env.eval(x.R)
 		l, r = numUnify(l, r)
+		if x.Op == "*" {
+			_, cl := x.L.(*SInt)
+			_, cr := x.R.(*SInt)
+			if !cl && !cr {
+				if l.Sort == "Real" {
+					env.u().global("(declare-fun rmul (Real Real) Real)")
+					return TV{T: app("rmul", l.T, r.T), Sort: "Real"}
+				}
+				env.u().global("(declare-fun imul (Int Int) Int)")
+				return TV{T: app("imul", l.T, r.T), Sort: "Int"}
+			}
+		}
 		return TV{T: app(x.Op, l.T, r.T), Sort: l.Sort}
 	case "/":
 		l := env.eval(x.L)
@@ -467,6 +479,13 @@ func (env *specEnv) evalSel(x *SSel) TV {
 		if named := namedOf(t); named != nil && env.fc.e.contracts.FieldInv[qualName(named)+"."+x.Name] {
 			env.fc.sc.assume(nonNilTerm(cur.T, cur.Sort))
 		}
+		if cur.Sort == "Int" && cur.Typ != nil && env.st != nil && env.st.alloc != "" {
+			switch cur.Typ.Underlying().(type) {
+			case *types.Pointer, *types.Map, *types.Chan:
+				// a reference stored in the heap of a state was allocated before that state
+				env.fc.sc.assume(fmt.Sprintf("(and (<= 0 %s) (< %s %s))", cur.T, cur.T, env.st.alloc))
+			}
+		}
 		switch cur.Sort {
 		case "Slice":
 			env.fc.sc.assume(fmt.Sprintf("(and (<= 0 (soff %s)) (<= 0 (sllen %s)) (<= 0 (sref %s)) (=> (= (sref %s) 0) (= (sllen %s) 0)))", cur.T, cur.T, cur.T, cur.T, cur.T))
@@ -531,6 +550,34 @@ func (env *specEnv) evalCall(x *SCall) TV {
 			return TV{T: fmt.Sprintf("(select (select %s %s) %s)", env.heap(md), m.T, k.T), Sort: "Bool"}
 		}
 		return TV{T: fmt.Sprintf("(select (select %s %s) %s)", env.heap(mv), m.T, k.T), Sort: vs, Typ: mt.Underlying().(*types.Map).Elem()}
+	case "fld": // fld("pkg.Type", "field", ref): the field of the object at a (quantified) reference
+		argn(3)
+		ts, ok1 := x.Args[0].(*SStr)
+		fs, ok2 := x.Args[1].(*SStr)
+		if !ok1 || !ok2 {
+			env.fail("fld needs type and field strings")
+		}
+		pk := env.pkg
+		tn := ts.V
+		if i := strings.Index(tn, "."); i > 0 {
+			pk, tn = tn[:i], tn[i+1:]
+		}
+		t, err := e.resolveType(pk, tn)
+		if err != nil {
+			env.fail("%v", err)
+		}
+		r := env.eval(x.Args[2])
+		st, ok := t.Underlying().(*types.Struct)
+		if !ok {
+			env.fail("fld: %s is not a struct", ts.V)
+		}
+		for i := 0; i < st.NumFields(); i++ {
+			if st.Field(i).Name() == fs.V {
+				key, srt, _ := u.fieldKey(t, i)
+				return TV{T: app("select", env.heap(key), r.T), Sort: srt, Typ: st.Field(i).Type()}
+			}
+		}
+		env.fail("fld: no field %s in %s", fs.V, ts.V)
 	case "keyof": // keyof(s): canonical map key of a string
 		argn(1)
 		a := env.eval(x.Args[0])
@@ -721,8 +768,8 @@ func (env *specEnv) evalCall(x *SCall) TV {
 		argn(1)
 		a := env.eval(x.Args[0])
 		u.global("(declare-fun f2i (Real) Int)")
-		t := fmt.Sprintf("(ite (>= %s 0.0) (to_int %s) (- (to_int (- %s))))", a.T, a.T, a.T)
-		env.fc.sc.assume(fmt.Sprintf("(=> (and (> %s (- 9000000000000000000.0)) (< %s 9000000000000000000.0)) (= (f2i %s) %s))", a.T, a.T, a.T, t))
+		r := app("f2i", a.T)
+		env.fc.sc.assume(fmt.Sprintf("(=> (and (> %s (- 9000000000000000000.0)) (< %s 9000000000000000000.0)) (ite (>= %s 0.0) (and (<= (to_real %s) %s) (< %s (+ (to_real %s) 1.0))) (and (>= (to_real %s) %s) (> %s (- (to_real %s) 1.0)))))", a.T, a.T, a.T, r, a.T, a.T, r, r, a.T, a.T, r))
 		return TV{T: app("f2i", a.T), Sort: "Int"}
 	case "real":
 		argn(1)
@@ -928,7 +975,13 @@ func selectPatterns(body string, vars map[string]TV, names []string) []string {
 						}
 						if end > 0 {
 							t := body[st:end]
-							if !seen[t] {
+							bad := false
+							for _, w := range []string{"(and ", "(or ", "(not ", "(=> ", "(ite ", "(forall ", "(exists ", "(= ", "(< ", "(<= ", "(> ", "(>= ", "(! "} {
+								if strings.Contains(t, w) {
+									bad = true
+								}
+							}
+							if !seen[t] && !bad {
 								seen[t] = true
 								pats = append(pats, ":pattern ("+t+")")
 							}
